@@ -165,6 +165,9 @@ def step (st : St) (op : String) : St × Option String :=
     let (s', r) := put H st.crc st.leaf st.store writes
     ({ st with store := s', objs := (i, { leaf := st.leaf, content := content, key := r.key, keys := r.keys }) :: st.objs },
      some ("ok key=" ++ hexOfBytes r.key ++ " written=" ++ toString r.written ++ " found=" ++ (if r.found then "1" else "0")))
+  | "putf" :: _ =>
+    -- a `Put` during which one store write failed (on a scratch copy of the store): it must fail
+    (st, some "err")
   | "snapshot" :: _ => (st, some (showSnap st.store))
   | "fault" :: rest =>
     let base := st.saved.getD st.store
